@@ -140,6 +140,10 @@ FILE_WORLDS = {
     'ro-dir-file':     ('old',   True,  True,  None),     # file not writable, directory not writable
     'ro-dir-absent':   (None,    True,  True,  None),     # nothing there, directory not writable
     'hidden-file':     ('old',   True,  True,  None),     # directory not searchable: exists() says False
+    # the target is spelled d/inbox/../out.torrent with d/inbox -> ../store/inbox: the OS resolves it to store/out.torrent,
+    # a lexical normalisation (os.path.abspath / normpath) to d/out.torrent - two different paths
+    'dotdot-absent':   (None,    False, False, None),     # nothing at store/out.torrent, a file at d/out.torrent
+    'dotdot-file':     ('old',   False, False, None),     # a file at store/out.torrent, nothing at d/out.torrent
 }
 FAULTABLE = ('absent', 'file', 'file-long', 'symlink-file')    # worlds on which write-time faults are played
 OPEN_ERRNOS = ('EACCES', 'EROFS', 'EMFILE', 'ENOSPC', 'EIO', 'EPERM')
@@ -474,6 +478,18 @@ def _build_world(base, world, prior, cleanup):
         except OSError:
             return None, cleanup
         os.symlink('chardev', path)
+    elif world in ('dotdot-absent', 'dotdot-file'):
+        store = os.path.join(base, 'store')
+        os.makedirs(os.path.join(store, 'inbox'))
+        os.chmod(store, 0o777)
+        os.symlink(os.path.join(os.pardir, 'store', 'inbox'), os.path.join(d, 'inbox'))
+        if world == 'dotdot-absent':
+            with open(os.path.join(d, 'out.torrent'), 'wb') as f:      # at the lexically normalised location
+                f.write(b'precious')
+        else:
+            with open(os.path.join(store, 'out.torrent'), 'wb') as f:
+                f.write(prior)
+        path = os.path.join(d, 'inbox', os.pardir, 'out.torrent')
     if world in ('ro-dir-file', 'ro-dir-absent'):
         os.chmod(d, 0o555)
     elif world == 'hidden-file':
@@ -485,9 +501,9 @@ def _world_ok(world, prior, node, snap):
     """read-back of the prepared world: is at the path what the world says, and is the directory as built?"""
     if snap.get(os.path.join('d', 'sibling'), [None, None, None])[2:] != [b'sibling'.hex()]:
         return False
-    if world in ('file', 'file-long', 'file-empty', 'symlink-file', 'ro-file', 'ro-dir-file', 'hidden-file'):
+    if world in ('file', 'file-long', 'file-empty', 'symlink-file', 'ro-file', 'ro-dir-file', 'hidden-file', 'dotdot-file'):
         return node == {'k': 'file', 'content': prior.hex()}
-    if world in ('absent', 'noparent', 'parentfile', 'name-too-long', 'ro-dir-absent'):
+    if world in ('absent', 'noparent', 'parentfile', 'name-too-long', 'ro-dir-absent', 'dotdot-absent'):
         return node == {'k': 'absent'}
     if world in ('dir', 'emptydir'):
         return node == {'k': 'dir'}
@@ -558,7 +574,7 @@ def _run_file(torf, cd, c, t, obs):
             _restore_process()
         after = _snapshot(base)
         obs['before'], obs['after'] = before_node, _node(path)
-        tname = os.path.relpath(path, base)
+        tname = os.path.join('store', 'out.torrent') if world.startswith('dotdot-') else os.path.relpath(path, base)
         mine = {tname, os.path.join('d', 'real.bin')} if world == 'symlink-file' else {tname}
         obs['others_changed'] = sorted(k for k in set(before) | set(after)
                                        if k not in mine and before.get(k) != after.get(k))[:5]
